@@ -21,7 +21,7 @@ if "grammar" not in snap or "--force" in sys.argv:
         g[k] = [{"opname": e["opname"], "opcode": e["opcode"], "caps": e["caps"], "exts": e["exts"],
                  "operands": [[kn[a], qn[b]] for a, b in e["operands"]]} for e in t[k]]
     snap["grammar"] = g
-for name, fn in (("operand_params", "operand_param_tables"),):
+for name, fn in (("operand_params", "operand_param_tables"), ("disas_masks", "disas_mask_tables")):
     if hasattr(tables, fn) and (name not in snap or "--force" in sys.argv):
         snap[name] = getattr(tables, fn)()
 json.dump(snap, open(out, "w"), indent=0, sort_keys=True)
